@@ -59,6 +59,8 @@ def obligations(ck, t):
         allok = allok and ok
     for fn, lem, stmt in (("layout", "all_layouts", "all_layouts_ok gen = true"),
                           ("stores", "all_stores", "all_stores_ok gen = true"),
+                          ("skeleton", "skeleton", "skeleton_ok gen = true"),
+                          ("optimized", "optimized", "optimized_ok gen = true"),
                           ("select", "select", "select_ok gen = true"),
                           ("zero", "zero_cells_ok", "zero_ok gen = true"),
                           ("precision", "builder_precision_ok", "precision_ok gen = true"),
@@ -77,7 +79,7 @@ def obligations(ck, t):
 
 def diagnostics(ck):
     txt = HDR + ("Eval vm_compute in (failing_tables gen).\nEval vm_compute in (failing_builder gen).\n"
-                 "Eval vm_compute in (not_refused gen).\nEval vm_compute in (failing_select gen).\nEval vm_compute in (failing_zero gen).\nEval vm_compute in (failing_precision gen).\nEval vm_compute in (failing_strings gen).\nEval vm_compute in (groups_ok gen, none_ok gen, units_ok gen, kinds_covered gen).\n")
+                 "Eval vm_compute in (not_refused gen).\nEval vm_compute in (failing_select gen).\nEval vm_compute in (failing_zero gen).\nEval vm_compute in (failing_precision gen).\nEval vm_compute in (failing_strings gen).\nEval vm_compute in (failing_optimized gen, skeleton_ok gen).\nEval vm_compute in (groups_ok gen, none_ok gen, units_ok gen, kinds_covered gen).\n")
     ok, res, out = ck.coq_eval("Diag_C05.v", txt)
     return res if ok else ["diagnostics failed: " + out[-300:]]
 
@@ -906,12 +908,13 @@ def run(ck):
             if not inst_ok:
                 ck.extra["diagnostics"] = diagnostics(ck)
             # Props need: all_layouts, groups, builder, refuse
-            need = ["Inst_C05_layout.v:all_layouts", "Inst_C05_stores.v:all_stores", "Inst_C05_select.v:select", "Inst_C05_groups.v:groups", "Inst_C05_builder.v:builder", "Inst_C05_refuse.v:refuse"]
+            need = ["Inst_C05_layout.v:all_layouts", "Inst_C05_stores.v:all_stores", "Inst_C05_select.v:select", "Inst_C05_skeleton.v:skeleton", "Inst_C05_optimized.v:optimized", "Inst_C05_groups.v:groups", "Inst_C05_builder.v:builder", "Inst_C05_refuse.v:refuse"]
             okn = all(any(o["name"] == nme and o["ok"] for o in ck.obligations) for nme in need)
             if okn:
                 ck.compile_props()
             else:
-                for nm in ("C05_row", "C05_table", "C05_table_construct", "C05_roundtrip_partial", "C05_select", "C05_network_roundtrip_partial", "C05_group_attributes", "C05_builder", "C05_refuse"):
+                for nm in ("C05_row", "C05_table", "C05_table_construct", "C05_roundtrip_partial", "C05_select", "C05_network_roundtrip_partial", "C05_document_roundtrip",
+                           "C05_document_roundtrip_with_C01", "C05_optimized_row", "C05_group_attributes", "C05_builder", "C05_refuse"):
                     ck.oblige("Props_C05.v:" + nm, False, "an instance obligation it rests on failed", kind="theorem")
             ck.tally("writer_tables", len(t["json"]["writer"]))
             ck.tally("builder_contexts", len(t["json"]["builder"]))
